@@ -281,6 +281,15 @@ func runBfDimacsCase(o *Oracle, d json.RawMessage, oc *Outcome) {
 		oc.Fail("spec", "no-error", entry, "error %v", err)
 		return
 	}
+	// exact differential: the Lean mirror of nnf + cnfRec + Dimacs (GS.Bf.dimacs) must produce
+	// the same bytes (Unique groups of more than 4 names are outside the mirror)
+	if a := o.Ask("bfdimacs " + c.F.Wire()); a != "unsupported" {
+		oc.Corr++
+		oc.Tag("dimacs-mirror-compared")
+		if got := strings.ReplaceAll(buf.String(), "\n", "\\n"); got != a {
+			oc.Fail("corr", "dimacs-mirror", entry, "Go wrote %q, the Lean mirror %q for %s", got, a, f.String())
+		}
+	}
 	lines := strings.Split(strings.TrimRight(buf.String(), "\n"), "\n")
 	if len(lines) == 0 || !strings.HasPrefix(lines[0], "p cnf ") {
 		oc.Fail("spec", "well-formed", entry, "first line is not a DIMACS header: %q", buf.String())
